@@ -27,6 +27,7 @@ for u in U16:
 UNIT_DEFAULT_PROPS["U6b"] = ["C04"]
 UNIT_DEFAULT_PROPS["U5"] = ["C16"]
 UNIT_DEFAULT_PROPS["U12"] = ["C12"]
+UNIT_DEFAULT_PROPS["U11"] = ["C14"]
 
 RUNTIME = ["U6", "U6b", "U7", "U8"] + U9
 
@@ -35,6 +36,7 @@ PROPS = {
     "C01": {"units": ["U2", "U3", "U4", "U6", "U7", "U8"]},
     "C02": {"units": ["U3", "U4", "U6", "U7", "U8"] + U9, "safety_units": ["U6", "U7"]},
     "C03": {"units": ["U3", "U4", "U6", "U7", "U8"] + U9 + U16},
+    "C14": {"units": ["U4", "U11"], "safety_units": ["U11"]},
     "C15": {"units": ["U6", "U16b", "U16d", "U16f", "U16h"]},
     "C04": {"units": ["U6b", "U7"] + U9 + U16, "safety_units": ["U6", "U6b", "U7"] + U9 + U16},
     "C05": {"units": ["U6b", "U8"], "safety_units": ["U8"]},
